@@ -167,6 +167,7 @@ Program gen_program(uint64_t seed, const GenParams &gp, const std::string &profi
     auto checkpoint = [&]() { Op o; o.kind = OP_CHECKPOINT; emit(o); };
     int nfiles = gp.multi_file ? (int)rng.range(1, 3) : 1;
     int ndim_ctr = 0, nvar_ctr = 0, natt_ctr = 0;
+    std::vector<Op> deferred_close;   // several files open at once
     for (int fi = 0; fi < nfiles; fi++) {
         if (gp.redef && rng.chance(0.1)) {   // aborting a freshly created dataset removes it
             Op c0; c0.kind = OP_CREATE; c0.file = fi; c0.name = "/sim/aborted" + std::to_string(fi) + ".nc"; c0.a[0] = p.cfg.format; emit(c0);
@@ -265,16 +266,19 @@ Program gen_program(uint64_t seed, const GenParams &gp, const std::string &profi
                 }
             } else if (gp.fill && v.isrec) { o.kind = OP_FILL_VAR_REC; o.a[0] = rng.range(0, f.numrecs + 1); emit(o); }
             else if (gp.meta_heavy) { o.kind = OP_RENAME_VAR; size_t cut = std::max<size_t>(1, v.name.size() - 1); while (cut > 1 && ((unsigned char)v.name[cut] & 0xC0) == 0x80) cut--; o.name2 = v.name.substr(0, cut); if (o.name2 != v.name) emit(o); }
+            if (gp.badids && rng.chance(0.25)) { Op b; b.kind = OP_BADID; b.file = fi; b.a[0] = rng.below(4); b.a[1] = rng.below(16); b.a[2] = rng.below(100); emit(b); }
             if (gp.checkpoint_each) checkpoint();
         }
         if (f.open) {
             // complete whatever is still pending, then leave independent mode
-            if (gp.nonblocking) { Op w; w.kind = OP_WAIT; w.file = fi; w.coll = f.mode != FM_INDEP; w.waits.resize(np); for (auto &x : w.waits) x.mode = 1; emit(w); Op d; d.kind = OP_DETACH; d.file = fi; emit(d); }
+            if (gp.nonblocking && !(gp.close_pending && rng.chance(0.4))) { Op w; w.kind = OP_WAIT; w.file = fi; w.coll = f.mode != FM_INDEP; w.waits.resize(np); for (auto &x : w.waits) x.mode = 1; emit(w); Op d; d.kind = OP_DETACH; d.file = fi; emit(d); }
             if (rng.chance(0.7)) { Op s; s.kind = OP_SYNCPOINT; s.file = fi; emit(s); }
             if (rng.chance(0.5)) checkpoint();
-            Op cl; cl.kind = OP_CLOSE; cl.file = fi; emit(cl);
+            Op cl; cl.kind = (gp.badids && rng.chance(0.15)) ? OP_ABORT : OP_CLOSE; cl.file = fi; cl.a[0] = gp.close_pending ? 1 : 0; if (gp.multi_file && rng.chance(0.4) && fi + 1 < nfiles) deferred_close.push_back(cl); else emit(cl);
+            if (gp.badids && rng.chance(0.5)) { Op b; b.kind = OP_BADID; b.file = fi; b.a[0] = rng.below(4); b.a[1] = rng.below(16); b.a[2] = rng.below(100); emit(b); }
         }
     }
+    for (auto &cl : deferred_close) emit(cl);
     checkpoint();
     if (gp.reopen) {
         for (int fi = 0; fi < nfiles; fi++) {
